@@ -1,4 +1,5 @@
 import TinysetModel.Model.Fault
+import TinysetModel.Model.Alloc
 import TinysetModel.Model.WFCheck
 import TinysetModel.Generated.Fits
 /-! Trace validator: reads the line protocol written by `/verif/harness` on stdin, re-executes
@@ -69,6 +70,19 @@ def splitDR (l : List String) : List String × List String × List String :=
   | "R" :: r => (pre, [], r)
   | _ => (pre, [], [])
 
+/-- the `A` section of a line (the allocator calls the implementation made on the crate's own blocks), if any:
+    tokens before it, tokens after it -/
+def splitA (pre : List String) : List String × Option (List String) :=
+  let before := pre.takeWhile (· != "A")
+  match pre.dropWhile (· != "A") with
+  | "A" :: r => (before, some r)
+  | _ => (before, none)
+
+def showEv (c : Cfg) : Ev → String
+  | .alloc b => s!"a{b}.{alignBytes c}"
+  | .free b => s!"f{b}.{alignBytes c}"
+  | .realloc o n => s!"r{o}:{n}.{alignBytes c}"
+
 structure St where
   c : Cfg := cfg64
   mode : String := "script"
@@ -111,12 +125,16 @@ def optStr : Option Nat → String
   | some v => toString v
 
 /-- run a set-producing monadic op and compare with the implementation's repr -/
-def St.runSet (s : St) (name : String) (dst : Nat) (act : M RS Rp) (draws : List Nat) (irt : List String)
-    (src : String := "") : IO St := do
+def St.runSetE (s : St) (name : String) (dst : Nat) (act : M RS (Rp × List Ev)) (draws : List Nat) (irt : List String)
+    (aimpl : Option (List String)) (src : String := "") : IO St := do
   match act (s.rs draws) with
   | .error _ => s.fail s!"{name}: model error (src {src}) impl {irt}"
-  | .ok (r, d) =>
+  | .ok ((r, evs), d) =>
     let (s, okd) := s.after d
+    let s := if aimpl.isSome then (s.bump "alloc-events:lines").bump s!"alloc-events:n{min evs.length 3}" else s
+    if aimpl.isSome && aimpl != some (evs.map (showEv s.c)) then
+      s.fail s!"{name}: allocator calls differ; model {evs.map (showEv s.c)} impl {aimpl.getD []} (src {src})"
+    else
     let before := layoutTag s.c (s.get dst)
     let s := (s.bump s!"op:{name}").bump s!"tr:{name}:{before}>{layoutTag s.c r}"
     if !okd then s.fail s!"{name}: model consumed a different number of draws than the implementation"
@@ -126,15 +144,23 @@ def St.runSet (s : St) (name : String) (dst : Nat) (act : M RS Rp) (draws : List
       s.fail s!"{name}: the representation invariant WF does not hold for {showR s.c.codec r}"
     else pure ((s.set dst r).bump (if capacity r ≤ 160 && len r ≤ 300 then "wf:checked" else "wf:skipped-large"))
 
-def St.runRet (s : St) (name : String) (dst : Nat) (act : M RS (Rp × Bool)) (ret : String) (draws : List Nat)
-    (irt : List String) : IO St := do
+def St.runSet (s : St) (name : String) (dst : Nat) (act : M RS Rp) (draws : List Nat) (irt : List String)
+    (src : String := "") : IO St :=
+  s.runSetE name dst (do let r ← act; pure (r, [])) draws irt none src
+
+def St.runRet (s : St) (name : String) (dst : Nat) (act : M RS ((Rp × Bool) × List Ev)) (ret : String) (draws : List Nat)
+    (irt : List String) (aimpl : Option (List String)) : IO St := do
   let src := showR s.c.codec (s.get dst)
   match act (s.rs draws) with
   | .error _ =>
     if ret == "P" then pure (s.bump s!"op:{name}:panic")
     else s.fail s!"{name}: model error on {src}, impl returned {ret}"
-  | .ok ((r, b), d) =>
+  | .ok (((r, b), evs), d) =>
     let (s, okd) := s.after d
+    let s := if aimpl.isSome then (s.bump "alloc-events:lines").bump s!"alloc-events:n{min evs.length 3}" else s
+    if aimpl.isSome && ret != "P" && aimpl != some (evs.map (showEv s.c)) then
+      s.fail s!"{name}: allocator calls differ; model {evs.map (showEv s.c)} impl {aimpl.getD []} on {src}"
+    else
     let before := layoutTag s.c (s.get dst)
     let s := (s.bump s!"op:{name}").bump s!"tr:{name}:{before}>{layoutTag s.c r}"
     if ret == "P" then s.fail s!"{name}: implementation panicked, model returned {b} on {src}"
@@ -226,21 +252,25 @@ def step (s : St) (line : String) : IO St := do
       else pure (s.bump s!"op:fits:{ty}")
   | ["new", i] => pure (s.set (N i) .empty)
   | ["drop", i] => pure (s.set (N i) .empty)
+  | "drop" :: i :: "A" :: evs =>
+    let want := (dropE c (s.get (N i))).map (showEv c)
+    if want == evs then pure (((s.set (N i) .empty).bump "alloc-events:lines").bump "op:drop")
+    else s.fail s!"drop: allocator calls differ; model {want} impl {evs} on {showR c.codec (s.get (N i))}"
   | "wcb" :: i :: cap :: bits :: rest =>
-    let (_, ds, ir) := splitDR rest
-    s.runSet "wcb" (N i) (withCapBits c uRng (N cap) (N bits)) (toks2nats ds) ir
+    let (pre, ds, ir) := splitDR rest
+    s.runSetE "wcb" (N i) (do let r ← withCapBits c uRng (N cap) (N bits); pure (r, allocEv c r)) (toks2nats ds) ir (splitA pre).2
   | "wcm" :: i :: cap :: mx :: rest =>
-    let (_, ds, ir) := splitDR rest
-    s.runSet "wcm" (N i) (withCapMax c uRng (N cap) (N mx)) (toks2nats ds) ir
+    let (pre, ds, ir) := splitDR rest
+    s.runSetE "wcm" (N i) (do let r ← withCapMax c uRng (N cap) (N mx); pure (r, allocEv c r)) (toks2nats ds) ir (splitA pre).2
   | "wco" :: i :: j :: rest =>
-    let (_, _, ir) := splitDR rest
-    s.runSet "wco" (N i) (pure (withCapOf (s.get (N j)))) [] ir
+    let (pre, _, ir) := splitDR rest
+    s.runSetE "wco" (N i) (pure (withCapOfE c (s.get (N j)))) [] ir (splitA pre).2
   | "clone" :: i :: j :: rest =>
-    let (_, _, ir) := splitDR rest
-    s.runSet "clone" (N i) (pure (clone (s.get (N j)))) [] ir
+    let (pre, _, ir) := splitDR rest
+    s.runSetE "clone" (N i) (pure (cloneE c (s.get (N j)))) [] ir (splitA pre).2
   | "ins" :: i :: v :: ret :: rest =>
-    let (_, ds, ir) := splitDR rest
-    s.runRet "ins" (N i) (insert c uRng FUEL (s.get (N i)) (N v)) ret (toks2nats ds) ir
+    let (pre, ds, ir) := splitDR rest
+    s.runRet "ins" (N i) (insertE c (c.W == 64) uRng FUEL (s.get (N i)) (N v)) ret (toks2nats ds) ir (splitA pre).2
   | "flt" :: i :: v :: n :: rest =>
     -- failure states of an insert: what `*self` holds at each zeroed request (Model/Fault.lean)
     let (_, ds, ir) := splitDR rest
@@ -283,8 +313,8 @@ def step (s : St) (line : String) : IO St := do
         | some (g, r) => s.fail s!"flx: extend({xs}) on {showR c.codec r0}: after a failed request the set is {g.take 50}, model {showR c.codec r}"
         | none => pure ((s.bump "op:flx").bump s!"flx:requests:{tr.length}")
   | "rem" :: i :: v :: ret :: rest =>
-    let (_, ds, ir) := splitDR rest
-    s.runRet "rem" (N i) (remove c uRng FUEL (s.get (N i)) (N v)) ret (toks2nats ds) ir
+    let (pre, ds, ir) := splitDR rest
+    s.runRet "rem" (N i) (removeE c (c.W == 64) uRng FUEL (s.get (N i)) (N v)) ret (toks2nats ds) ir (splitA pre).2
   | ["con", i, v, ret] =>
     let b := contains c (s.get (N i)) (N v)
     if b == (ret == "1") then pure (s.bump s!"op:con:{layoutTag c (s.get (N i))}")
@@ -297,14 +327,16 @@ def step (s : St) (line : String) : IO St := do
     if memUsed c (s.get (N i)) == N n then pure (s.bump "op:mem") else s.fail s!"mem_used: model {memUsed c (s.get (N i))} impl {n}"
   | "col" :: i :: n :: rest =>
     let (pre, ds, ir) := splitDR rest
+    let (pre, aimpl) := splitA pre
     let xs := toks2nats pre
     if xs.length != N n then s.fail "col: malformed line" else
-    s.runSet "col" (N i) (fromIter c uRng FUEL xs) (toks2nats ds) ir
+    s.runSetE "col" (N i) (fromIterE c (c.W == 64) uRng FUEL xs) (toks2nats ds) ir aimpl
   | "ext" :: i :: n :: rest =>
     let (pre, ds, ir) := splitDR rest
+    let (pre, aimpl) := splitA pre
     let xs := toks2nats pre
     if xs.length != N n then s.fail "ext: malformed line" else
-    s.runSet "ext" (N i) (extend c uRng FUEL (s.get (N i)) xs) (toks2nats ds) ir (showR c.codec (s.get (N i)))
+    s.runSetE "ext" (N i) (extendE c (c.W == 64) uRng FUEL (s.get (N i)) xs) (toks2nats ds) ir aimpl (showR c.codec (s.get (N i)))
   | "iter" :: i :: _n :: xs => cmpList s s!"iter:{layoutTag c (s.get (N i))}" (elems c (s.get (N i))) (toks2nats xs)
   | "drain" :: i :: _n :: rest =>
     let (pre, _, ir) := splitDR rest
@@ -341,17 +373,24 @@ def step (s : St) (line : String) : IO St := do
     let b := eqSet64 c (s.get (N i)) (s.get (N j))
     if b == (ret == "1") then pure (s.bump "op:eq64") else s.fail s!"eq64: model {b} impl {ret}"
   | "uni" :: k :: i :: j :: form :: rest =>
-    let (_, ds, ir) := splitDR rest
-    let act := if form == "own" then unionOwn c uRng FUEL (s.get (N i)) (s.get (N j))
-               else if form == "ref64u" then unionRef64 c uRng FUEL (s.get (N i)) (s.get (N j))
-               else unionRef c uRng FUEL (s.get (N i)) (s.get (N j))
-    s.runSet s!"uni:{form}" (N k) act (toks2nats ds) ir
+    let (pre, ds, ir) := splitDR rest
+    -- the by-value form is called on a clone of the left operand (one more request)
+    let act : M RS (Rp × List Ev) :=
+      if form == "own" then do
+        let (r, t) ← unionOwnE c (c.W == 64) uRng FUEL (s.get (N i)) (s.get (N j))
+        pure (r, allocEv c (clone (s.get (N i))) ++ t)
+      else if form == "ref64u" then do let r ← unionRef64 c uRng FUEL (s.get (N i)) (s.get (N j)); pure (r, [])
+      else unionRefE c (c.W == 64) uRng FUEL (s.get (N i)) (s.get (N j))
+    s.runSetE s!"uni:{form}" (N k) act (toks2nats ds) ir (if form == "ref64u" then none else (splitA pre).2)
   | "dif" :: k :: i :: j :: form :: rest =>
-    let (_, ds, ir) := splitDR rest
-    let act := if form == "own" then diffOwn c uRng FUEL (s.get (N i)) (s.get (N j))
-               else if form == "ref64" then diffRef64 c uRng FUEL (s.get (N i)) (s.get (N j))
-               else diffRef c uRng FUEL (s.get (N i)) (s.get (N j))
-    s.runSet s!"dif:{form}" (N k) act (toks2nats ds) ir
+    let (pre, ds, ir) := splitDR rest
+    let act : M RS (Rp × List Ev) :=
+      if form == "own" then do
+        let (r, t) ← diffOwnE c (c.W == 64) uRng FUEL (s.get (N i)) (s.get (N j))
+        pure (r, allocEv c (clone (s.get (N i))) ++ t)
+      else if form == "ref64" then do let r ← diffRef64 c uRng FUEL (s.get (N i)) (s.get (N j)); pure (r, [])
+      else diffRefE c (c.W == 64) uRng FUEL (s.get (N i)) (s.get (N j))
+    s.runSetE s!"dif:{form}" (N k) act (toks2nats ds) ir (if form == "ref64" then none else (splitA pre).2)
   | "hash" :: i :: _n :: xs => cmpList s "hash" (hashInput c (s.get (N i))) (toks2nats xs)
   | "toarr" :: i :: _n :: xs => cmpList s s!"toarr:{layoutTag c (s.get (N i))}" (toArray c (s.get (N i))) (toks2nats xs)
   | "fromarr" :: k :: n :: rest =>
